@@ -178,6 +178,12 @@ pub struct Sc {
     /// whose extra lines are part of standard output.
     #[serde(default)]
     pub e2e_verbose: bool,
+    /// Every process of this input meets the same full disk: after this many bytes written to output
+    /// files the writes fail (simulated processes: ENOSPC after N bytes in total; real processes: a
+    /// file-size limit of N bytes per file, EFBIG). The runs fail - alike: what they printed and what
+    /// they left in the output directory must still not depend on the process.
+    #[serde(default)]
+    pub out_disk_full_after: Option<u64>,
 }
 
 #[derive(Clone, Debug, Serialize, Deserialize, PartialEq)]
@@ -312,6 +318,7 @@ fn generate_large(r: &mut Rng, k_seeds: usize) -> Sc {
         e2e: variant != 0 || r.chance(1, 4),
         e2e_affiliate_spellings: variant != 0,
         e2e_verbose: false,
+        out_disk_full_after: None,
     }
 }
 
@@ -832,7 +839,10 @@ pub fn generate(seed: u64, k_seeds: usize) -> Sc {
     let e2e = fx.is_none() && r.chance(1, 10);
     let e2e_affiliate_spellings = e2e && r.chance(1, 2);
     let e2e_verbose = e2e && r.chance(1, 2);
-    Sc { files, modes: ALL_MODES.to_vec(), symbol_base, summarize_before: sum_day.to_string(), today: d(start_year + 4, 6, 15).to_string(), hash_seeds, max_read, fx, e2e, e2e_affiliate_spellings, e2e_verbose }
+    // (its own stream: the rest of the input is what it was before this knob existed)
+    let mut rf = Rng::new(crate::prng::mix(seed, 0xF011, 9));
+    let out_disk_full_after = if fx.is_none() && rf.chance(1, 10) { Some(*rf.pick(&[0u64, 90, 600, 2500, 9000])) } else { None };
+    Sc { files, modes: ALL_MODES.to_vec(), symbol_base, summarize_before: sum_day.to_string(), today: d(start_year + 4, 6, 15).to_string(), hash_seeds, max_read, fx, e2e, e2e_affiliate_spellings, e2e_verbose, out_disk_full_after }
 }
 
 fn set_aff(row: &mut [String], a: &str, r: &mut Rng) {
@@ -857,6 +867,7 @@ pub struct RunOutput {
     pub unmodelled: Vec<String>,
     pub downloads: usize,
     pub short_reads: u64,
+    pub fs_faults_fired: u64,
 }
 
 /// The day on which a process runs. Without look-ups nothing the tool prints may depend on it, so
@@ -924,6 +935,7 @@ pub fn run_once_in(sc: &Sc, mode: Mode, hash_seed: u64, keep_cache: bool, boc: O
     let today_d = process_today(sc, hash_seed);
     let mut env = ProcEnv::new(hash_seed, today_d);
     env.knobs = Knobs { max_write: usize::MAX, max_read: sc.max_read, eintr_every: 0 };
+    env.fs_faults.enospc_after_bytes = sc.out_disk_full_after;
     let symbol_base = sc.symbol_base.clone();
     let summarize_before = sc.summarize_before.clone();
     let probe_items: Vec<String> = {
@@ -998,7 +1010,7 @@ pub fn run_once_in(sc: &Sc, mode: Mode, hash_seed: u64, keep_cache: bool, boc: O
         Some((p, n)) => (p.to_string(), n.parse().unwrap_or(0)),
         None => (perm, 0),
     };
-    RunOutput { stdout: out.stdout, stderr: out.stderr, files, ok, panic, perm, unmodelled: out.unmodelled, downloads, short_reads: out.short_reads }
+    RunOutput { stdout: out.stdout, stderr: out.stderr, files, ok, panic, perm, unmodelled: out.unmodelled, downloads, short_reads: out.short_reads, fs_faults_fired: out.fs_faults_fired.values().sum() }
 }
 
 // ------------------------------------------------ end-to-end lane (real acb processes)
@@ -1128,6 +1140,20 @@ pub fn run_e2e(sc: &Sc, mode: Mode, hash_seed: u64, used_out_dir: Option<&Vec<(S
         .env("ACBSIM_PID", (1000 + hash_seed % 30_000).to_string())
         .stdin(std::process::Stdio::null());
     own_memory_layout(&mut cmd, hash_seed);
+    if let Some(limit) = sc.out_disk_full_after {
+        use std::os::unix::process::CommandExt;
+        unsafe {
+            cmd.pre_exec(move || {
+                // a file-size limit: writes beyond it fail with EFBIG (the signal that comes with it is ignored)
+                libc::signal(libc::SIGXFSZ, libc::SIG_IGN);
+                let lim = libc::rlimit { rlim_cur: limit, rlim_max: limit };
+                if libc::setrlimit(libc::RLIMIT_FSIZE, &lim) != 0 {
+                    return Err(std::io::Error::last_os_error());
+                }
+                Ok(())
+            });
+        }
+    }
     let o = cmd.output().map_err(|e| format!("cannot start the real acb binary: {}", e))?;
     let mut files: Vec<(String, Vec<u8>)> = vec![];
     if let Ok(rd) = std::fs::read_dir(format!("{}/out", root)) {
@@ -1140,7 +1166,7 @@ pub fn run_e2e(sc: &Sc, mode: Mode, hash_seed: u64, used_out_dir: Option<&Vec<(S
     files.sort();
     let _ = std::fs::remove_dir_all(&root);
     let signalled = o.status.code().is_none();
-    Ok(RunOutput { stdout: o.stdout, stderr: o.stderr, files, ok: o.status.code().map(|c| c == 0), panic: if signalled || o.status.code() == Some(101) { Some(format!("real process ended with {:?}", o.status)) } else { None }, perm: String::new(), unmodelled: vec![], downloads: 0, short_reads: 0 })
+    Ok(RunOutput { stdout: o.stdout, stderr: o.stderr, files, ok: o.status.code().map(|c| c == 0), panic: if signalled || o.status.code() == Some(101) { Some(format!("real process ended with {:?}", o.status)) } else { None }, perm: String::new(), unmodelled: vec![], downloads: 0, short_reads: 0, fs_faults_fired: 0 })
 }
 
 pub struct NoNetwork {}
@@ -1472,6 +1498,9 @@ impl Engine for C09 {
                 }
                 let out = run_once_in(sc, *mode, *hs, hi > 0 && boc.is_some(), boc.clone(), used);
                 st.add("fault.legal_short_reads", out.short_reads);
+                if out.fs_faults_fired > 0 {
+                    st.bump("fault.output_disk_full_in_every_process_of_the_input");
+                }
                 st.bump("fault.hash_seed_redrawn_for_a_process");
                 if boc.is_some() {
                     if hi == 0 && out.downloads > 0 {
@@ -1547,7 +1576,7 @@ impl Engine for C09 {
                             if hi == 0 && sc.e2e_verbose {
                                 st.bump("probe.e2e_verbose_runs");
                             }
-                            if hi == 0 && !sc.e2e_affiliate_spellings && !sc.e2e_verbose {
+                            if hi == 0 && !sc.e2e_affiliate_spellings && !sc.e2e_verbose && sc.out_disk_full_after.is_none() {
                                 // fidelity: the simulated process and the real process print the same bytes
                                 let sim = run_once(sc, *mode, *hs);
                                 if sim.stdout == out.stdout && sim.files == out.files {
@@ -1689,6 +1718,11 @@ impl Engine for C09 {
         if sc.e2e_verbose {
             let mut s = sc.clone();
             s.e2e_verbose = false;
+            c.push(s);
+        }
+        if sc.out_disk_full_after.is_some() {
+            let mut s = sc.clone();
+            s.out_disk_full_after = None;
             c.push(s);
         }
         // blank optional cells
